@@ -429,6 +429,9 @@ func signJudge(key ref.Pt, msg []byte) func(t *vk.T, honest []fx.Outcome, keyPre
 				continue
 			}
 			ok, kind, det := fx.VerifySig(o.Value, key, msg)
+			if kind == "schnorr-library-only" {
+				t.Inconclusive("%s", det)
+			}
 			if !ok {
 				t.Violation(keyPrefix+"|invalid-signature|"+kind, "%s: honest party %q finished with a signature the independent verifier rejects: %s", tag, o.ID, det)
 			}
